@@ -504,6 +504,11 @@ func drvDotLocal(r *rand.Rand, n int) [][]Action {
 			a.Name = []string{RefGuess(L) + "_test", "main", "other", RefGuess(L)}[r.Intn(4)]
 		}
 		h := []Action{a}
+		if r.Intn(6) == 0 {
+			// the File's own path as an anonymous import (an external test package that blank-imports the package under
+			// test): it is an anonymous import the user added
+			h = append(h, Action{A: "Anon", P: L})
+		}
 		dots := map[string]bool{}
 		k := 1 + r.Intn(5)
 		for j := 0; j < k; j++ {
